@@ -208,7 +208,18 @@ def _run_segment(seg: Dict[str, Any], out: Dict[str, Any]) -> None:
     importlib.invalidate_caches()
     mods = {}
     for mn in seg.get("modules", []):
-        mods[mn] = importlib.import_module(mn)
+        if mn == seg.get("main_script"):
+            # "script" placement: the file is executed as the module __main__ (what `python file.py` does)
+            import types
+            path = os.path.join(root, mn.replace(".", "/") + ".py")
+            mod = types.ModuleType("__main__")
+            mod.__file__ = path
+            sys.modules["__main__"] = mod
+            with open(path) as f:
+                exec(compile(f.read(), path, "exec"), mod.__dict__)
+            mods[mn] = mod
+        else:
+            mods[mn] = importlib.import_module(mn)
     L = importlib.import_module("_vlog") if seg.get("vlog", True) else None
 
     for st in seg["steps"]:
